@@ -67,6 +67,10 @@ func checkC03(c C03Case, r *Rec) *Violation {
 		if !Agrees(run.Out, run.RefVal, run.RefErr) {
 			return Violf("C03: result differs from short-circuit evaluation of the dumped program\n%s\nengine=%v\nreference=%s", run.describe(src, u), run.Out, refString(run.RefVal, run.RefErr))
 		}
+		// a second evaluation of the same compiled program performs the same effects again
+		if v := run.Again("C03", src, u, 2); v != nil {
+			return v
+		}
 		// was something with an effect really skipped?
 		eag := &m.Env{Vars: u.Bound(), Fail: u.Fail(), Custom: customModel()}
 		eag.EvalAll(run.DTree, nil)
